@@ -87,12 +87,42 @@ theorem two_snapshots_can_mix :
     twoSnapshots (fun _ => [0]) [Upd.setRes "r" [1]] 0 1 "r" = ([0], [1]) := by
   decide
 
+/-! ## get-or-create: re-checking under the write lock is what keeps the first insert -/
+
+/-- an atomic get-or-create returns what is stored afterwards -/
+theorem getOrCreate_returns_stored {ν} (m : Res → Option ν) (k : Res) (v : ν) :
+    (getOrCreate m k v).1 k = some (getOrCreate m k v).2 := by
+  unfold getOrCreate
+  cases h : m k <;> simp [h]
+
+/-- and never replaces an element that is present: every later caller (any key, any interleaving of atomic steps)
+    leaves it alone, so all callers of one key end up with the same object -/
+theorem getOrCreate_stable {ν} (m : Res → Option ν) (k k' : Res) (x v : ν) (h : m k = some x) :
+    (getOrCreate m k' v).1 k = some x := by
+  unfold getOrCreate
+  cases h' : m k' with
+  | some y => simpa using h
+  | none =>
+    by_cases hk : k = k'
+    · subst hk; rw [h] at h'; cases h'
+    · simp [hk, h]
+
+/-- the split version loses an insert: two callers that both saw nothing insert one after the other; the first caller
+    keeps object `1`, the map (and every later caller) has object `2` -/
+theorem blindCreate_can_lose :
+    let m0 : Res → Option Nat := fun _ => none
+    let s1 := blindCreate m0 "r" (m0 "r") 1
+    let s2 := blindCreate s1.1 "r" (m0 "r") 2
+    s1.2 = 1 ∧ s2.1 "r" = some 2 := by
+  decide
+
 /-! ## 2. The generated table -/
 
 open Sentinel.Gen.Access
 
 def excusedReads : List (Cls × String) := resolve classNames knownReads
 def excusedPlain : List (Nat × String) := resolve atomicFields knownPlainReads
+def excusedInserts : List (Cls × String) := resolve classNames knownInserts
 
 /-- **Every pair of conflicting live accesses of one object class holds a common mutex, at least one side in
     write mode** (outside the listed known reads).  Object classes: package-level variables and the containers
@@ -118,6 +148,19 @@ theorem lock_order_acyclic : ∀ m, ¬ Path lockEdges m m :=
     listed known functions -/
 theorem slots_single_snapshot : ∀ s ∈ slotShapes, shapeOkB knownSlots s = true :=
   List.all_eq_true.mp (by decide +kernel)
+
+/-- **Lost-insert rule.**  Every live map insertion `G[k] = v` into a tracked container class is made while holding, in
+    write mode, a mutex that (a) every live writer of the class also holds in write mode and (b) has been held since
+    function entry or since a lookup of the same `G[k]` on every path (the re-check under the write lock) — so a
+    get-or-create cannot be split into a check in one critical section and an insert in another
+    (`blindCreate_can_lose`), outside the listed known sites.  `r.rechecked` is `r.guards ≠ []`. -/
+theorem inserts_rechecked : ∀ r ∈ inserts, insertOkB accesses excusedInserts r = true :=
+  List.all_eq_true.mp (by decide +kernel)
+
+/-- the `Prop` it decides, for the live, non-excused inserts -/
+theorem inserts_guarded (r : Insert) (hr : r ∈ inserts) (hl : r.phase = Phase.live)
+    (hx : (excusedInserts.any fun e => e.1 == r.cls && e.2 == r.fn) = false) : InsertGuarded accesses r :=
+  insertOkB_sound _ _ r (inserts_rechecked r hr) hl hx
 
 /-- fail closed: the extractor met no construct it could not interpret in live code -/
 theorem extractor_understood_everything : ∀ u ∈ unknowns, (u.phase != Phase.live) = true :=
@@ -163,6 +206,13 @@ theorem outlier_nodemap_trace_witness :
 /-- with the read excused the pinned rows are fine: the `_partial` is exactly `table_disciplined` -/
 theorem outlier_nodemap_partial :
     disciplinedB [(0, "core/outlier.getNodeBreakersOfResource")] pinnedNodeMapRows = true := by decide
+
+/-- `outlier.addNodeBreakerOfResource` inserts the breaker it built before taking the lock without looking the
+    address up again (no guard at all) -/
+def pinnedInsertRows : List Insert :=
+  [⟨0, 0, [], false, .live, "core/outlier.addNodeBreakerOfResource", "core/outlier/rule_manager.go:69", "address"⟩]
+
+theorem outlier_lost_insert_witness : pinnedInsertRows.all (insertOkB pinnedNodeMapRows []) = false := by decide
 
 def pinnedPlainRows : List PlainUse :=
   [⟨0, 0, false, .live, "core/stat/base.LeapArray.currentBucketOfTime", "core/stat/base/leap_array.go:232"⟩,
